@@ -62,10 +62,41 @@ def spec_lit(ty, tok, ob, out):
     return None if out == "reject" else "literal %d outside %s accepted (as %s)" % (v, ty, out)
 
 
+def spec_real(ty, tok, out):
+    """float / double fields given an INTEGER literal: accepted iff the integer is exactly representable in the field's type (no silent rounding),
+    and the recorded default is then exactly that value"""
+    import struct
+    v = tok_value(tok)
+    if abs(v) >= 2**64: return None          # the literal itself overflows: token-level, not constrained here
+    if v < -2**63: return None               # negative magnitudes above 2^63: the recorded finding schema-negative-literal-sign-wrap (judged on the integer types)
+    try:
+        d = float(v)
+        exact = int(d) == v
+        if exact and ty == "float":
+            f = struct.unpack("<f", struct.pack("<f", d))[0]
+            exact = int(f) == v
+    except (OverflowError, struct.error):
+        exact = False
+    if exact:
+        want = "ok r%016x" % struct.unpack("<Q", struct.pack("<d", float(v)))[0]
+        if v == 0 and tok.startswith("-"): return None      # -0: sign of zero not constrained
+        return None if out == want else "integer %d is exactly representable as %s but is not accepted with its value (got %s, want %s)" % (v, ty, out, want)
+    return None if out == "reject" else "integer %d is not representable as %s but is accepted (as %s): silent rounding" % (v, ty, out)
+
+
 def gen(ctx):
     r = ctx.rng
     L = []   # (line, kind, meta)
     vals = grid()
+    # float / double targets with integer literals around the limits of exact representation
+    rv = set()
+    for k in (24, 25, 31, 32, 53, 54, 62, 63, 64):
+        for d in (-2, -1, 0, 1, 2, 3): rv.update([2**k + d, -(2**k + d)])
+    rv.update([0, 1, -1, 16777215, 16777216, 16777217, 9007199254740991, 9007199254740993, 2**63 - 1, -2**63, 2**64 - 1, 2**64 - 2**40, 2**64 - 2**11, 2**63 + 2**39, 2**63 + 2**40, 3 * 2**40, 10**15, 10**17, 10**19])
+    for ty in ("float", "double"):
+        for v in sorted(rv):
+            if abs(v) < 2**64:
+                L.append(("lit 0 %s %s" % (ty, str(v).encode().hex()), "real", (ty, str(v))))
     if not ctx.quick():
         for _ in range(4000):
             vals.append(r.choice([1, -1]) * r.getrandbits(r.choice([7, 8, 15, 16, 31, 32, 62, 63, 64, 65, 70])))
@@ -258,7 +289,7 @@ def run(ctx):
     known = [f for f in load_known() if f["property"] == "C08" and f["status"] == "known"]
     spec_fail, known_hit = [], {}
     for i, (l, kind, meta) in enumerate(items):
-        why = spec_lit(meta[0], meta[1], meta[2], out_c[i]) if kind == "lit" else spec_flags(meta[0], meta[1], out_c[i]) if kind == "flags" \
+        why = spec_lit(meta[0], meta[1], meta[2], out_c[i]) if kind == "lit" else spec_real(meta[0], meta[1], out_c[i]) if kind == "real" else spec_flags(meta[0], meta[1], out_c[i]) if kind == "flags" \
             else spec_falign(meta[0], meta[1], out_c[i]) if kind == "falign" else spec_enum(meta[0], meta[1], out_c[i])
         if why:
             # known finding: silent sign change for negative magnitudes above 2^63
